@@ -35,6 +35,9 @@ C13toy ==
          VerifyToy(k, f.sig, f.ms) => f.ms = ms                       \* nothing else does
 
 C16anchored == Anchored
+\* every toy interval [a, a + w]: only in-range values are acceptable, every in-range value is provable
+C16tolerance == \A a \in 0 .. 5 : \A w \in {1, 2, 3, 4, 7, 8, 15} :
+                  BoudotSound(2, a, a + w) /\ (("F13" \notin Dev) => BoudotComplete(2, a, a + w))
 Hidden == {{}, {0}, {1}, {0, 1}}
 C15used == /\ \A U \in Hidden \ {{}}, t \in BOOLEAN : AllLeavesUsed("zkpok", U, t)
            /\ \A U \in Hidden : AllLeavesUsed("spok", U, FALSE)
